@@ -106,9 +106,15 @@ func c09Sanitiser(c *Ctx, p *Prog) {
 		return
 	}
 	rets := returnsOf(fn)
-	if len(rets) != 1 || len(rets[0].Results) != 4 {
+	if len(rets) == 0 {
 		c.Undecided("C09-R2", "GetContent:returns", p.pos(fn.Pos()), "unexpected return shape")
 		return
+	}
+	for _, r := range rets {
+		if len(r.Results) != 4 {
+			c.Undecided("C09-R2", "GetContent:returns", p.pos(fn.Pos()), "unexpected return shape")
+			return
+		}
 	}
 	var checkVal func(v ssa.Value, edgeGuards []Atom, depth int) (bool, string)
 	checkVal = func(v ssa.Value, eg []Atom, depth int) (bool, string) {
@@ -145,14 +151,21 @@ func c09Sanitiser(c *Ctx, p *Prog) {
 		}
 		return false, "value of unrecognised provenance: " + valName(v)
 	}
-	ok, why := checkVal(rets[0].Results[0], guardsAt(rets[0].Block()), 0)
+	ok, why := true, ""
+	for _, r := range rets { // (one return, or an early one for positions outside the buffer)
+		if ok1, why1 := checkVal(derefCell(resultOf(r, 0)), guardsAt(r.Block()), 0); !ok1 {
+			ok, why = false, why1
+		}
+	}
 	c.Check(ok, "C09-R2", "GetContent:primary-rune-sanitised", p.pos(rets[0].Pos()), "every returned primary rune is blank, zero or a printable stored rune "+why)
 	// the width returned with a sanitised rune is 1 (phi of const 1 / c.width)
 	okW := false
-	if phi, ok := rets[0].Results[3].(*ssa.Phi); ok {
-		for _, e := range phi.Edges {
-			if k, ok := constInt(e); ok && k == 1 {
-				okW = true
+	for _, r := range rets {
+		if phi, ok := derefCell(resultOf(r, 3)).(*ssa.Phi); ok {
+			for _, e := range phi.Edges {
+				if k, ok := constInt(e); ok && k == 1 {
+					okW = true
+				}
 			}
 		}
 	}
